@@ -122,6 +122,7 @@ type Config struct {
 	DelayStart  int // max steps a freshly spawned task is withheld
 	StepBudget  int
 	RecordTrace bool
+	Procs       int // what runtime.GOMAXPROCS(0) / runtime.NumCPU() report to the code under test (0 = 4)
 }
 
 // Sim is one simulated execution. One Sim is live per OS process at a time.
@@ -584,6 +585,22 @@ func Yield() {
 	t.op = opNone
 	s.log(t, "yield", nil, "")
 }
+
+// GOMAXPROCS stands in for runtime.GOMAXPROCS: the simulated machine has
+// cfg.Procs processors (a per-run choice); setting the value is accepted and
+// ignored, the previous value is returned. The scheduler itself interleaves
+// tasks at every operation regardless of it; code that sizes a pool or a
+// semaphore by it sees small and large machines.
+func GOMAXPROCS(n int) int {
+	s, _ := me()
+	if s.cfg.Procs > 0 {
+		return s.cfg.Procs
+	}
+	return 4
+}
+
+// NumCPU stands in for runtime.NumCPU.
+func NumCPU() int { return GOMAXPROCS(0) }
 
 // Self returns the running task's id (for harness bookkeeping).
 func Self() int { _, t := me(); return t.ID }
